@@ -61,6 +61,7 @@ type fnCtx struct {
 	inQuant   int
 	noOblige  int
 	noGlobalInit int
+	verCounter   int
 	globalVals map[*ssa.Global]Val
 	globalSyms map[string]*ssa.Global
 }
@@ -119,6 +120,10 @@ func (fc *fnCtx) oblige(st *State, kind, goal string, pos token.Pos, props []str
 // assume strengthens the reach condition of st.
 func (fc *fnCtx) assume(st *State, fact string) {
 	if fact == "true" {
+		return
+	}
+	if fact == "false" || st.reach == "false" {
+		st.reach = "false"
 		return
 	}
 	sym := fc.sc.Fresh("reach")
@@ -487,8 +492,11 @@ func (fc *fnCtx) mergeInto(b *ssa.BasicBlock) *State {
 		if fc.isBackEdge(p, b) {
 			continue
 		}
-		if fc.exits[p] == nil {
+		if fc.exits[p] == nil || fc.exits[p].reach == "false" {
 			continue // unreachable or panicking predecessor
+		}
+		if c, ok := fc.edgeCond[[2]int{p.Index, b.Index}]; ok && c == "false" {
+			continue
 		}
 		preds = append(preds, p)
 	}
@@ -503,6 +511,18 @@ func (fc *fnCtx) mergeInto(b *ssa.BasicBlock) *State {
 		return st
 	}
 	st := &State{heap: map[string]string{}}
+	sameVer := true
+	for _, p := range preds[1:] {
+		if fc.exits[p].ver != fc.exits[preds[0]].ver {
+			sameVer = false
+		}
+	}
+	if sameVer {
+		st.ver = fc.exits[preds[0]].ver
+	} else {
+		fc.verCounter++
+		st.ver = fc.verCounter
+	}
 	var edges []string
 	for _, p := range preds {
 		e := fc.sc.Fresh(fmt.Sprintf("edge.%d.%d", p.Index, b.Index))
